@@ -9,7 +9,7 @@ From SJ Require Import Model.Base Model.RefTables Model.Ring Proofs.RingProofs T
 Open Scope N_scope.
 
 (* the full statement on the model: no Crash / OutOfFuel outcome of parsing *)
-From SJ Require Import Model.Driver Proofs.RejectProofs Proofs.StrTotal.
+From SJ Require Import Model.Driver Proofs.RejectProofs Proofs.StrTotal Proofs.TotalProofs.
 Definition C05_full : Prop :=
   forall nd copy bs, parse_message nd copy bs <> Crash /\ parse_message nd copy bs <> OutOfFuel.
 
@@ -18,7 +18,13 @@ Definition C05_full : Prop :=
    run-away read of the string kernel, enough fuel — whatever the input. *)
 Theorem C05_parse_total : forall (copy : bool) (bs : bytes),
   parse_model copy bs = Err \/ exists p, parse_model copy bs = Ok p.
-Proof. exact parse_message_total. Qed.
+Proof. exact Proofs.RejectProofs.parse_message_total. Qed.
+
+(* PROVED: C05_full — for EVERY byte string, Parse and ParseND (both string
+   modes) return an error or a result in the model: never an out-of-range
+   access, never a run-away read of the string kernel, never exhausted fuel. *)
+Theorem C05_parse_and_parsend_total : C05_full.
+Proof. exact Proofs.TotalProofs.parse_message_total. Qed.
 
 Theorem C05_slot_bounds_partial :
   (gen.Consts.gen_indexSizeWithSafetyBuffer + 128 <=? gen.Consts.gen_indexSize) = true /\
@@ -38,6 +44,7 @@ Theorem C05_every_schedule_finite_partial : forall S CAP n evs s,
   run S CAP (init n) evs = Some s -> (length evs <= 4 * n + 4)%nat.
 Proof. intros S CAP n evs s H. exact (proj2 (ring_terminates S CAP n evs s H)). Qed.
 
+Print Assumptions C05_parse_and_parsend_total.
 Print Assumptions C05_parse_total.
 Print Assumptions C05_no_stuck_state_partial.
 Print Assumptions C05_slot_bounds_partial.
